@@ -8,7 +8,44 @@ use crate::evidence::Ctx;
 use crate::poolsim::{RunCfg, build_ops, run_ops};
 use crate::world::World;
 
+/// C04: every ordered pair and triple of one validator's votes in one slot (five kinds, two blocks), for a
+/// validator other than the pool's owner and for the owner itself, each against the decision table.
+fn enumerate_vote_sequences(ctx: &mut Ctx) {
+    use crate::model::MVote;
+    use crate::poolsim::Op;
+    use crate::wire::VK;
+    let mut rng = ctx.rng("c04-table");
+    let stakes = vec![1u64; 5];
+    let ep = make_epoch(&mut rng, &stakes, "equal");
+    let (ha, hb) = ([0xa1u8; 32], [0xb2u8; 32]);
+    let alphabet: Vec<(VK, Option<[u8; 32]>)> = vec![(VK::Notar, Some(ha)), (VK::Notar, Some(hb)), (VK::NotarFallback, Some(ha)), (VK::NotarFallback, Some(hb)), (VK::Skip, None), (VK::SkipFallback, None), (VK::Final, None)];
+    let cfg = RunCfg { late_links: false, jitter: 0.0, dup_votes: 0.0, cert_frac: 0.0, block_frac: 0.0, standstill_every: 0, waiters: false, check_bundle_replay: false };
+    let mut seqs: Vec<Vec<usize>> = Vec::new();
+    for a in 0..alphabet.len() {
+        for b in 0..alphabet.len() {
+            seqs.push(vec![a, b]);
+            for c in 0..alphabet.len() {
+                seqs.push(vec![a, b, c]);
+            }
+        }
+    }
+    for (i, sq) in seqs.iter().enumerate() {
+        if !ctx.mine(i as u64) {
+            continue;
+        }
+        for (own, signer) in [(0usize, 3usize), (3, 3)] {
+            let slot = 1 + (i as u64 % 3);
+            let ops: Vec<Op> = sq.iter().map(|k| Op::Vote(MVote { signer, kind: alphabet[*k].0, slot, hash: alphabet[*k].1 })).collect();
+            run_ops(ctx, "C04", &mut rng, &ep, own, &ops, &cfg, "enumerated-sequences");
+            ctx.count("enumerated-vote-sequences");
+        }
+    }
+}
+
 pub fn run(ctx: &mut Ctx, focus: &str, quick_total: u64, thorough_total: u64) -> Result<(), String> {
+    if focus == "C04" {
+        enumerate_vote_sequences(ctx);
+    }
     let mut rng = ctx.rng("worlds");
     let iters = ctx.iters(quick_total, thorough_total);
     let fams = ["equal", "smallint", "exact5", "exact10", "exact100", "heavy", "whale60", "whale80"];
